@@ -123,3 +123,26 @@ META["C04"] = {
             "represented and equal. The two documented limitations (redundant slots, re-bound pattern slots) are excluded by guards evaluated on the real e-graph. Held on the plantings explored.",
     "note": "Trusted: the construction of the planted substitution; completeness is judged after firing, not on the raw match list.",
 }
+
+META["C03"] = {
+    "technique": "semantic model monitor: every e-node of every class is evaluated in a finite model (two models) after every rewrite iteration",
+    "design_ref": "DESIGN.md §3.5, §4 C03",
+    "text": "With rule sets that are valid in a finite model (prime field, summation and let binders), every e-node of every class and the originally inserted term must denote the same function of "
+            "the class's slots after any number of iterations, with redundant slots randomised; both substitution methods, apply_rewrites and Runner. An invalid rule (kept as a probe) is caught, "
+            "which shows the monitor can see capture and side-condition faults. Held on the runs explored.",
+    "note": "Trusted: the evaluator and the validity of the pooled rules in their model; environments are exhaustive only for classes with few slots.",
+}
+META["C14"] = {
+    "technique": "invariant hooks after every public call: datum = join of make over current e-nodes, cross-checked with own fix-point, extractor and model",
+    "design_ref": "DESIGN.md §4 C14",
+    "text": "A product analysis (min size, constant folding with a modify hook, min depth) is attached to generated histories; after every call each live class's datum is recomputed from its e-nodes "
+            "and compared, min-size is compared with an own least fix-point and the extractor, constants with the model value, merge conflicts are recorded by the analysis itself. Held on the histories explored.",
+    "note": "Trusted: own fix-point and the F_7 model; only monotone (min / agreeing-constant) analyses are exercised.",
+}
+META["C15"] = {
+    "technique": "report-vs-state monitor: stop reasons, return values and counters are compared with an independent fingerprint and a sentinel rule counting applications",
+    "design_ref": "DESIGN.md §4 C15",
+    "text": "Every claim a run makes (nothing changed, saturated, limit exceeded, hook failed, node count) is checked against the final state: an independent fingerprint before/after, one more "
+            "application after saturation, re-matching of all rules, a sentinel rewrite counting applications, and hooks with known failures. Held on the runs explored.",
+    "note": "Trusted: the fingerprint covers node count, live classes, slots, symmetries (by enumeration through eq) and the equality matrix of tracked handles.",
+}
